@@ -19,7 +19,7 @@ import signal
 import time
 from concurrent.futures import ThreadPoolExecutor
 
-from common import NCPU, WORK, Report, ToolError, check_action_coverage, inproc_map, log, run_cases, run_tlc, std_main
+from common import HELPERS, NCPU, WORK, Report, ToolError, check_action_coverage, inproc_map, log, run_cases, run_tlc, std_main
 import ptydrv
 import tracecheck
 
@@ -306,16 +306,16 @@ def runner(rep, tier, seed, replay):
         if e == "c":
             if ln.startswith("-"):
                 ln = " " + ln
-            jobs.append({"entry": "c", "text": ln, "timeout": 12, "want_files": False, "env": {"A": "va", "PATH_ONLY_HELPERS": "1"}})
+            jobs.append({"entry": "c", "text": ln, "timeout": 12, "want_files": False, "env": {"A": "va", "PATH": HELPERS}})
         elif e == "script":
-            jobs.append({"entry": "script", "text": ln + "\nvmk SENT 0\n", "timeout": 12, "want_files": False, "env": {"A": "va"}})
+            jobs.append({"entry": "script", "text": ln + "\nvmk SENT 0\n", "timeout": 12, "want_files": False, "env": {"A": "va", "PATH": HELPERS}})
         else:
-            jobs.append({"entry": "stdin", "text": ln + "\n", "timeout": 12, "want_files": False, "env": {"A": "va"}})
+            jobs.append({"entry": "stdin", "text": ln + "\n", "timeout": 12, "want_files": False, "env": {"A": "va", "PATH": HELPERS}})
         meta.append((ln, e))
     t1 = time.time()
     results = run_cases(jobs)
     log("[C05] %d process-level lines: %.0fs" % (len(jobs), time.time() - t1))
-    slow = [i for i, res in enumerate(results) if res.get("timed_out") and not res.get("blocked_in_wait")]
+    slow = [i for i, res in enumerate(results) if res.get("timed_out") and not res.get("blocked_in_wait") and not res.get("blocked_on_foreign")]
     if slow:
         log("[C05] %d process-level lines timed out; re-running with a 10x budget" % len(slow))
         again = run_cases([dict(jobs[i], timeout=120) for i in slow[:20]], jobs=4)
@@ -331,7 +331,7 @@ def runner(rep, tier, seed, replay):
         feat = {"layer": "process", "entry": e, "len": len(ln), "chars": sorted(set(ln) & set(SPECIALS))}
         case = {"layer": "process", "line": ln, "proc": job, "status": res.get("status"), "stderr": res.get("stderr", "")[-400:], "feat": feat}
         cr = crashed(res)
-        if res.get("timed_out") and res.get("blocked_in_wait"):
+        if res.get("timed_out") and (res.get("blocked_in_wait") or res.get("blocked_on_foreign")):
             # the shell waits (wait4) for a program the line started (a mutated word can name a real interactive program):
             # that is the program's doing, not a hang of the shell
             pevents.append({"e": "return", "o": "ran"})
@@ -410,7 +410,7 @@ KEYS_CTRL = ["\t", "\t\t", "\r", "\x03", "\x1b[A", "\x1b[B", "\x1b[C", "\x1b[D",
 def pty_session(rnd):
     keys = ""
     try:
-        s = ptydrv.LineSession(files={"a b": "", "aa": "", "d/x": "", "q'r": ""}, env={"A": "va"})
+XX
     except ptydrv.Unsettled as e:
         return {"unsettled": str(e)}
     events = []
